@@ -664,3 +664,31 @@ Proof.
   - apply combined_complete.
   - intros s. apply combined_interleaving.
 Qed.
+
+(* ------------------------------------------------------------------------------------------ *)
+(* the drain after the child's exit, on every result path *)
+
+Lemma proj_list_sched : forall s sched, proj_list s (sched_polls sched) = map Poll (polls_for s sched).
+Proof.
+  intros s sched. unfold sched_polls, polls_for.
+  induction sched as [|[s' n] t IH]; [reflexivity|].
+  cbn [map proj_list proj filter fst snd]. destruct (stream_eqb s s'); cbn [map snd]; now rewrite IH.
+Qed.
+
+Lemma drained_on_every_path : forall cap, 0 < cap -> forall (t : tentative) evs sched s,
+  let x := side_of s (srun cap evs sst0) in
+  sd_open x = false -> sd_stopped x = false -> r_done (sd_rd x) = false ->
+  Forall (fun n => 1 <= n) (polls_for s sched) ->
+  (length (sd_buf x) < length (polls_for s sched))%nat ->
+  let y := side_of s (srun cap (evs ++ leak_phase t sched) sst0) in
+  r_done (sd_rd y) = true /\
+  captured s (srun cap (evs ++ leak_phase t sched) sst0) = written s evs /\
+  sd_err y = sd_err x.
+Proof.
+  intros cap Hcap t evs sched s x O S D F L. cbn zeta. unfold captured, leak_phase.
+  rewrite side_of_srun, proj_list_app, side_run_app, <- side_of_srun. fold x.
+  rewrite proj_list_sched.
+  destruct (drain_reaches_eof cap Hcap (polls_for s sched) x F L O S D) as [I1 [I2 [I3 _]]].
+  repeat split; try assumption. rewrite I2. unfold x.
+  pose proof (prefix_always cap evs s) as Q. unfold captured in Q. now rewrite Q.
+Qed.
